@@ -22,7 +22,7 @@ func refDigestMain(args []string) {
 	}
 	delims := runDelims(424242)
 	worlds := append([]*world{}, parseWorlds...)
-	worlds = append(worlds, worldCallbacks, worldDurations)
+	worlds = append(worlds, worldCallbacks, worldDurations, worldMisc)
 	for _, w := range worlds {
 		for _, gen := range []bool{false, true} {
 			if gen && (w.hasGen == nil || !w.hasGen()) {
